@@ -136,7 +136,8 @@ let tau_closure c set =
   done;
   !res
 
-let accepts c s0 (obs : string list) (outcome : string) =
+(* the states the model can be in after the observed sequence (None: no path; the count of events consumed) *)
+let final_states c s0 (obs : string list) =
   let cur = ref (tau_closure c (StS.singleton s0)) in
   let ok = ref true and consumed = ref 0 in
   List.iter (fun o ->
@@ -147,6 +148,11 @@ let accepts c s0 (obs : string list) (outcome : string) =
         if StS.is_empty next then ok := false
         else begin cur := tau_closure c next; incr consumed end
       end) obs;
+  ((!ok, !consumed), (if !ok then !cur else StS.empty))
+
+let accepts c s0 (obs : string list) (outcome : string) =
+  let ((ok0, consumed0), fin) = final_states c s0 obs in
+  let ok = ref ok0 and consumed = ref consumed0 and cur = ref fin in
   if not !ok then (false, Printf.sprintf "no-path-after-%d-events" !consumed)
   else begin
     let ex p = StS.exists p !cur in
@@ -202,11 +208,30 @@ let () =
                       rst = g "restart" "-"; stop = (g "stop" "0" = "1"); pre = 0; cap = 0 } in
            let obs = match g "obs" "" with "" | "-" -> [] | s -> String.split_on_char ',' s in
            let outcome = g "outcome" "?" in
+           (* queue-pressure lines carry the number of wallet status rows Start() read: the model's queue then has
+              the capacity its start-up rule gives (start_cap), and the repaired model starts in start_state
+              (the pushes of initTaskChan spelled out) *)
+           let nw = match field line "wallets" with Some w -> Some (nat_of_int (int_of_string w)) | None -> None in
+           let init c = match nw with
+             | Some _ when c.nilfix ->
+               start_state c (nat_of_int sc.blocks) (tasks_of_string sc.reqs) (tasks_of_string sc.rst) sc.stop
+             | _ -> init_of c sc in
+           let show (ok, why) = (if ok then "acc" else "rej") ^ (if why = "" then "" else ":" ^ why) in
            let res found =
-             let c = mk_cfg found in
-             let (ok, why) = accepts c (init_of c sc) obs outcome in
-             (if ok then "acc" else "rej") ^ (if why = "" then "" else ":" ^ why) in
-           Printf.printf "%s found=%s repaired=%s\n" line (res true) (res false)
+             let c = match nw with Some w -> { (mk_cfg found) with cap = start_cap w } | None -> mk_cfg found in
+             show (accepts c (init c) obs outcome) in
+           (match nw with
+            | None -> Printf.printf "%s found=%s repaired=%s\n" line (res true) (res false)
+            | Some _ ->
+              (* diagnosis only: would a queue of max MaxWaitingTaskNum (unfinished tasks) slots explain the
+                 observation, with a dropped task in its final state?  (C20_requeue_dropped_refuted) *)
+              let nrst = List.length (tasks_of_string sc.rst) in
+              let ct = cfg_cap (nat_of_int (max (int_of_nat busy_threshold) nrst)) in
+              let (ok, why) = accepts ct (init ct) obs outcome in
+              let dropped = ok && (let (_, fin) = final_states ct (init ct) obs in
+                                   StS.exists (fun s -> step ct s = [] && int_of_nat s.gh.n_drop > 0) fin) in
+              Printf.printf "%s found=%s repaired=%s tight=%s%s\n" line (res true) (res false) (show (ok, why))
+                (if dropped then ":dropped" else ""))
          end else print_endline line
        done with End_of_file -> ())
   | _ -> prerr_endline "usage: model enum|sched|check"; exit 2
